@@ -249,11 +249,14 @@ SdsInputs == {[sk |-> ks, n |-> n] : ks \in {{k} : k \in SdsKinds} \cup {SdsKind
 \* it (followed by an OS process that takes time), and kinds that assert ([assert])
 SymOrder == <<"strArg", "listArg", "listDef", "shellStr", "envStr", "fileStr", "progSym", "timeoutInt", "cleanupArg",
               "exitCode", "numLines", "lineNum", "lineNums", "equalsStr", "matchesRx", "pathExists", "textMatcher",
-              "textTransformer", "intMatcher", "lineMatcher">>
+              "textTransformer", "intMatcher", "lineMatcher",
+              "textMatcherAnd", "intMatcherOr", "lineMatcherAnd", "textTransformerSeq">>
+\* (the last four: the case's matcher / transformer as an OPERAND of && / || / | in the suite's instruction)
 \* ("listDef": a LIST defined by an instruction of the suite from a string symbol of the case, then used)
 AllSymLog == {"strArg", "listArg", "listDef", "shellStr", "envStr", "fileStr", "progSym", "cleanupArg"}
 AllSymAssert == {"exitCode", "numLines", "lineNum", "lineNums", "equalsStr", "matchesRx", "pathExists", "textMatcher",
-                 "textTransformer", "intMatcher", "lineMatcher"}
+                 "textTransformer", "intMatcher", "lineMatcher",
+                 "textMatcherAnd", "intMatcherOr", "lineMatcherAnd", "textTransformerSeq"}
 AllSymKinds == {SymOrder[j] : j \in DOMAIN SymOrder}
 \* "vbad": values of which the INTEGER and the REGEX are ill-formed (the others are values like any other): a case
 \* that gives them to an instruction of the suite that needs an INTEGER / a REGEX ends in VALIDATION_ERROR before
